@@ -26,7 +26,7 @@ var c15Fields = []string{"BaseCRL", "DeltaCRL"}
 
 var srcC15 = []*g2lTarget{
 	{
-		file: "verifier/crl/crl.go", recv: "FileCache", fn: "fileName", leanName: "FileCache.fileName",
+		file: "verifier/crl/crl.go", recv: "FileCache", fn: "fileName", leanName: "FileCache.fileName", recvName: "c",
 		params:    "(env : Env) (c : FileCache) (url : String)",
 		ret:       "String",
 		retOpt:    []bool{false},
@@ -42,7 +42,7 @@ var srcC15 = []*g2lTarget{
 		wrapErrors: true,
 	},
 	{
-		file: "verifier/crl/crl.go", recv: "FileCache", fn: "Get", leanName: "FileCache.Get",
+		file: "verifier/crl/crl.go", recv: "FileCache", fn: "Get", leanName: "FileCache.Get", recvName: "c",
 		params:     "(env : Env) (c : FileCache) (ctx : context.Context) (url : String)",
 		ret:        "Option corecrl.Bundle × Option GoLite.Err",
 		retOpt:     []bool{true, true},
@@ -53,7 +53,7 @@ var srcC15 = []*g2lTarget{
 		wrapErrors: true,
 	},
 	{
-		file: "verifier/crl/crl.go", recv: "FileCache", fn: "Set", leanName: "FileCache.Set",
+		file: "verifier/crl/crl.go", recv: "FileCache", fn: "Set", leanName: "FileCache.Set", recvName: "c",
 		params:     "(env : Env) (c : FileCache) (ctx : context.Context) (url : String) (bundle : Option corecrl.Bundle)",
 		ret:        "Option GoLite.Err",
 		retOpt:     []bool{true},
